@@ -20,7 +20,8 @@ def run(rep: Report, repo: Repo):
         'with its capacity in one statement and the capacity equals the allocated size; stem aliasing precedes output-slot aliasing; c_len '
         'is the heap high-water mark taken after the last alloc. For the allocator, a path-wise symbolic effect analysis of Heap.alloc / '
         'Heap.free proves two necessary invariants on every path: conservation (sum of chunk sizes changes exactly as current_size does) '
-        'and released-list consistency (a deleted chunk key is removed from or replaced in `released`).')
+        'and released-list consistency (a deleted chunk key is removed from or replaced in `released`); chunk intervals are tracked '
+        'symbolically so that splits and merges are position-exact and merges need a proven adjacency; the returned chunk has the requested size.')
     rep.trusted = ['counting argument in DESIGN.md C08.1: a location with a +1 pin never reaches ref_count <= 0']
     rep.assumptions = ['NOT DECIDED: the full allocator clause (no overlap / coalescing / tiling / true high-water mark under every alloc-free history) - '
                        'only the two path invariants above are decided; a bug that keeps them (e.g. wrong first-fit choice, missed coalescing) is not detected',
@@ -168,240 +169,29 @@ def run(rep: Report, repo: Repo):
 
 # --------------------------------------------------------------------------- allocator: path-wise effect analysis
 
-class Lin:
-    """Linear expression over symbols with integer coefficients."""
-    def __init__(self, d=None):
-        self.d = {k: v for k, v in (d or {}).items() if v != 0}
-
-    def __add__(self, o):
-        r = dict(self.d)
-        for k, v in o.d.items():
-            r[k] = r.get(k, 0) + v
-        return Lin(r)
-
-    def __sub__(self, o):
-        r = dict(self.d)
-        for k, v in o.d.items():
-            r[k] = r.get(k, 0) - v
-        return Lin(r)
-
-    def __eq__(self, o):
-        return self.d == o.d
-
-    def __hash__(self):
-        return hash(tuple(sorted(self.d.items())))
-
-    def __repr__(self):
-        return ' + '.join(f'{v}*{k}' if v != 1 else k for k, v in sorted(self.d.items())) or '0'
-
-
-def sym(s):
-    return Lin({s: 1})
-
-
 def heap_effects(rep, smod):
-    """Enumerate the paths of Heap.alloc and Heap.free; on each path track symbolically
-       - sum_delta: change of the sum of chunk sizes (writes/deletes of self.chunks[k])
-       - size_delta: change of self.current_size
-       - deleted keys and the updates of self.released
-    Rules: sum_delta == size_delta on every path; every deleted chunk key that may be in `released`
-    is removed from / replaced in `released` on that path."""
-    rep.rule('C08.heap-conserve', 'on every path of Heap.alloc/free the sum of chunk sizes changes exactly as current_size does (regions keep tiling the managed range)')
-    rep.rule('C08.heap-maxsize', 'max_size is raised to current_size on every path that grows current_size')
+    from kvstatic import heapsym
+    rep.rule('C08.heap-tiling', 'on every path of Heap.alloc/free the chunk intervals after the path cover exactly what the touched chunks covered before '
+                                '(+/- the tail by which current_size changed): position-exact splits, merges only between provably adjacent chunks')
+    rep.rule('C08.heap-returned', 'the key alloc returns has exactly the requested size and is no longer listed in `released`')
+    rep.rule('C08.heap-released', 'a deleted chunk key never stays in `released`; a freed chunk that survives is listed; every listed key is a chunk')
+    rep.rule('C08.heap-maxsize', 'max_size is raised to current_size after every growth of current_size')
+    rep.rule('C08.heap-keys', 'chunks[...] is only accessed at addresses known to be chunk keys (the freed chunk, entries of `released`, or proven equal to one)')
+    rid = {'tiling': 'C08.heap-tiling', 'returned': 'C08.heap-returned', 'released': 'C08.heap-released', 'maxsize': 'C08.heap-maxsize', 'keys': 'C08.heap-keys'}
     for q in ('Heap.alloc', 'Heap.free'):
         f = smod.func(q)
-        paths = list(enum_paths(body_no_doc(f)))
-        rep.note(f'{q}: {len(paths)} paths')
-        if len(paths) < 3:
-            raise ModelError(f'{q}: only {len(paths)} paths enumerated')
-        npaths = 0
-        for path in paths:
-            eff = path_effect(path, q)
-            if eff is None:
-                continue
-            npaths += 1
-            ok = eff['sum_delta'] == eff['size_delta']
-            desc = ' ; '.join(eff['trace'])[:300]
-            rep.ob('C08.heap-conserve', f'{q}: {desc}', ok, sample={'rule': 'C08.heap-conserve', 'function': q, 'path': eff['trace'], 'sum(chunks) delta': repr(eff['sum_delta']), 'current_size delta': repr(eff['size_delta'])} if npaths <= 2 else None)
-            if not ok:
-                rep.violate('C08.heap-conserve', smod, f, desc, f'{q}: on this path the chunk sizes change by {eff["sum_delta"]} but current_size by {eff["size_delta"]}: chunks no longer tile [0, current_size)',
-                            witness={'path': eff['trace']}, node=f)
-            if eff['size_grows']:
-                ok = eff['max_updated']
-                rep.ob('C08.heap-maxsize', f'{q}: {desc}', ok)
-                if not ok:
-                    rep.violate('C08.heap-maxsize', smod, f, desc, f'{q}: current_size grows on this path without max_size = max(max_size, current_size) afterwards (c_len would be too small)', node=f)
-        rep.floor(f'{q} paths analysed', npaths, 3)
-
-
-def enum_paths(stmts, prefix=()):
-    """All acyclic statement paths through a block: If branches both ways, For bodies taken 0 or 1 times
-    (each iteration of `for idx, loc in enumerate(self.released)` either returns or has no effect)."""
-    if not stmts:
-        yield list(prefix), False
-        return
-    st, rest = stmts[0], stmts[1:]
-    if isinstance(st, ast.Return):
-        yield list(prefix) + [('ret', st)], True
-        return
-    if isinstance(st, ast.If):
-        for branch, pol in ((st.body, True), (st.orelse, False)):
-            for p, done in enum_paths(list(branch), tuple(prefix) + (('cond', st.test, pol),)):
-                if done:
-                    yield p, True
-                else:
-                    yield from enum_paths(rest, tuple(p))
-        return
-    if isinstance(st, ast.For):
-        # zero iterations
-        yield from enum_paths(rest, tuple(prefix) + (('skiploop', st),))
-        # one (last) iteration that may return
-        for p, done in enum_paths(list(st.body), tuple(prefix) + (('loop', st),)):
-            if done:
-                yield p, True
-            else:
-                yield from enum_paths(rest, tuple(p))
-        return
-    yield from enum_paths(rest, tuple(prefix) + (('stmt', st),))
-
-
-def path_effect(path_done, q):
-    path, _ = path_done
-    env = {}          # local name -> Lin (symbolic) or ('chunk', keytext)
-    chunks = {}       # key text -> Lin current symbolic size  (lazy: first read creates symbol)
-    deleted = set()
-    sum_delta = Lin()
-    size_delta = Lin()
-    grows = False
-    max_updated = False
-    trace = []
-
-    def keytext(e):
-        # normalise a chunks-key expression through local aliases that are pure names
-        return cz(e)
-
-    def read_chunk(k):
-        if k in deleted:
-            return None
-        if k not in chunks:
-            chunks[k] = sym(f'size[{k}]')
-        return chunks[k]
-
-    def ev(e):
-        if isinstance(e, ast.Constant) and isinstance(e.value, int):
-            return Lin({'1': e.value}) if e.value else Lin()
-        if isinstance(e, ast.Name):
-            if e.id in env:
-                return env[e.id]
-            return sym(e.id)
-        if isinstance(e, ast.Subscript) and cz(e.value) == 'self.chunks':
-            k = resolve_key(e.slice)
-            v = read_chunk(k)
-            if v is None:
-                raise ModelError(f'{q}: reads chunk {k} after deleting it')
-            return v
-        if isinstance(e, ast.BinOp) and isinstance(e.op, (ast.Add, ast.Sub)):
-            a, b = ev(e.left), ev(e.right)
-            return a + b if isinstance(e.op, ast.Add) else a - b
-        if isinstance(e, ast.Attribute) and cz(e) == 'self.current_size':
-            return sym('current_size') + size_delta
-        raise _Opaque()
-
-    def resolve_key(e):
-        """Key expressions are compared up to substitution of locals defined as other key expressions."""
-        try:
-            v = ev(e)
-            return repr(v)
-        except _Opaque:
-            return cz(e)
-
-    class _Opaque(Exception):
-        pass
-
-    for item in path:
-        kind = item[0]
-        if kind == 'cond':
-            trace.append(('if ' if item[2] else 'if not ') + cz(item[1])[:60])
-            continue
-        if kind in ('loop', 'skiploop'):
-            trace.append(('for ' if kind == 'loop' else 'skip for ') + cz(item[1].target))
-            continue
-        if kind == 'ret':
-            trace.append('return')
-            continue
-        st = item[1]
-        try:
-            if isinstance(st, ast.Assign) and len(st.targets) == 1:
-                tg = st.targets[0]
-                if isinstance(tg, ast.Name):
-                    if cz(st.value).startswith('bisect('):
-                        env[tg.id] = sym(tg.id)
-                        continue
-                    if isinstance(st.value, ast.Subscript) and cz(st.value.value) == 'self.released':
-                        env[tg.id] = sym(f'released[{resolve_key(st.value.slice)}]')
-                        continue
-                    env[tg.id] = ev(st.value)
-                    continue
-                if isinstance(tg, ast.Subscript) and cz(tg.value) == 'self.chunks':
-                    k = resolve_key(tg.slice)
-                    new = ev(st.value)
-                    old = chunks.get(k) if k not in deleted else None
-                    if k in chunks and k not in deleted:
-                        sum_delta = sum_delta + new - chunks[k]
-                    elif k in deleted:
-                        sum_delta = sum_delta + new
-                        deleted.discard(k)
-                    else:
-                        # first touch is a write: is the key new, or existing? Existing only if it was read before.
-                        sum_delta = sum_delta + new
-                        trace.append(f'new chunk {k}')
-                    chunks[k] = new
-                    trace.append(f'chunks[{k}] = {new}')
-                    continue
-                if isinstance(tg, ast.Attribute) and cz(tg) == 'self.max_size':
-                    if cz(st.value) == 'max(self.max_size,self.current_size)':
-                        max_updated = not grows or True
-                        max_updated = True
-                    continue
-                if isinstance(tg, ast.Subscript) and cz(tg.value) == 'self.released':
-                    trace.append(cz(st))
-                    continue
-            if isinstance(st, ast.AugAssign) and cz(st.target) == 'self.current_size':
-                v = ev(st.value)
-                if isinstance(st.op, ast.Add):
-                    size_delta = size_delta + v
-                    grows = True
-                    max_updated = False
-                elif isinstance(st.op, ast.Sub):
-                    size_delta = size_delta - v
-                else:
-                    raise ModelError(f'{q}: current_size updated with {type(st.op).__name__}')
-                trace.append(cz(st))
-                continue
-            if isinstance(st, ast.Delete):
-                for tg in st.targets:
-                    if isinstance(tg, ast.Subscript) and cz(tg.value) == 'self.chunks':
-                        k = resolve_key(tg.slice)
-                        v = read_chunk(k)
-                        if v is None:
-                            raise ModelError(f'{q}: deletes chunk {k} twice')
-                        sum_delta = sum_delta - v
-                        deleted.add(k)
-                        trace.append(f'del chunks[{k}]')
-                    elif isinstance(tg, ast.Subscript) and cz(tg.value) == 'self.released':
-                        trace.append(cz(st))
-                    else:
-                        raise ModelError(f'{q}: unexpected delete {cz(st)}')
-                continue
-            if isinstance(st, ast.Expr) and isinstance(st.value, ast.Call) and cz(st.value.func) in ('insort_left',):
-                trace.append(cz(st))
-                continue
-            if isinstance(st, ast.Expr) and isinstance(st.value, ast.Constant):
-                continue
-        except _Opaque:
-            raise ModelError(f'{q}: statement outside the modelled subset: {cz(st)[:80]}')
-        raise ModelError(f'{q}: statement outside the modelled subset: {cz(st)[:80]}')
-    return dict(sum_delta=sum_delta, size_delta=size_delta, size_grows=grows, max_updated=max_updated, trace=trace)
+        n = 0
+        for res in heapsym.analyse(f, q):
+            n += 1
+            desc = ' ; '.join(res['trace'])[:300]
+            kinds = {k for k, _ in res['problems']}
+            for k in ('tiling', 'released', 'keys') + (('returned',) if q == 'Heap.alloc' else ()) + (('maxsize',) if res.get('grows') else ()):
+                rep.ob(rid[k], f'{q}: {desc}', k not in kinds,
+                       sample={'rule': rid[k], 'function': q, 'path': res['trace']} if n <= 2 and k == 'tiling' else None)
+            for k, msg in res['problems']:
+                rep.violate(rid[k], smod, f, desc, f'{q}: {msg}', witness={'path': res['trace']}, node=f)
+        rep.note(f'{q}: {n} paths analysed symbolically')
+        rep.floor(f'{q} paths analysed', n, 4 if q == 'Heap.alloc' else 9)
 
 
 def thorough(rep, repo):
